@@ -478,6 +478,9 @@ func (c *c19) feedAtPacket(ru *fw.Rule, key string, s c19feed, posCall *ssa.Call
 				why = c19calleeName(mv.Common()) + " moves the decoder between reading the position of the fed bytes and the \"packet\" field: the two do not cover the same bytes"
 			}
 		}
+		if why == "" && c19skippable(p, nil) {
+			why = "the record can complete without decoding its \"packet\" field (a return on some path after the bytes were fed): the next record is then read from inside this packet"
+		}
 	}
 	ru.Check(why == "", k, c.pos(posCall), "the fed bytes are exactly the bytes of the record's packet field", why)
 }
@@ -871,4 +874,117 @@ func (c *c19) ruleEndian() {
 				fmt.Sprintf("magic %#x selects %v, expected exactly decode.%s: every multi-byte field of such a capture (included length, link type, interface id) is read in the wrong byte order or the capture is rejected", k, gl, name))
 		}
 	}
+}
+
+// ---------------------------------------------------------------------------
+// C19.feed: a packet the flow decoder rejects does not end the capture
+
+// feedErrorTolerated: the flow decoder returns an error for packets that are irrelevant to the TCP
+// streams (defragmenter security checks, undecodable reassembled payloads, empty raw IP frames).
+// Such a packet is one lost packet at most; it must not abort the decode run (no connection would
+// be reconstructed at all) nor end the record early. So: on the branch taken when the error of the
+// table call (or of the package helper wrapping it) is non-nil, no call that never returns
+// (d.Errorf, d.Fatalf, panic) and no return out of the record decoder may be reached before the
+// branch rejoins the normal path.
+func (c *c19) feedErrorTolerated(ru *fw.Rule, key string, s c19feed) {
+	k := key + ":error-tolerated"
+	calls := []*ssa.Call{s.call}
+	if s.at != s.call {
+		calls = append(calls, s.at)
+	}
+	why := ""
+	for _, cl := range calls {
+		if types.TypeString(cl.Type(), nil) != "error" {
+			continue
+		}
+		fn := cl.Parent()
+		isErr := func(v ssa.Value) bool { return c.origin(v) == ssa.Value(cl) }
+		for _, b := range fn.Blocks {
+			ifi, ok := b.Instrs[len(b.Instrs)-1].(*ssa.If)
+			if !ok || len(b.Succs) != 2 {
+				continue
+			}
+			cd := c19norm(ifi.Cond, true)
+			bo, ok := cd.v.(*ssa.BinOp)
+			if !ok || (bo.Op != token.NEQ && bo.Op != token.EQL) {
+				continue
+			}
+			if !((isErr(bo.X) && isNilConst(bo.Y)) || (isErr(bo.Y) && isNilConst(bo.X))) {
+				continue
+			}
+			// successor taken when err != nil
+			errTrue := (bo.Op == token.NEQ) == cd.t
+			e := b.Succs[1]
+			if errTrue {
+				e = b.Succs[0]
+			}
+			other := b.Succs[0]
+			if errTrue {
+				other = b.Succs[1]
+			}
+			// blocks only the error outcome reaches: from e, not reachable from the other arm without e
+			okReach := map[*ssa.BasicBlock]bool{other: true}
+			stack := []*ssa.BasicBlock{other}
+			for len(stack) > 0 {
+				x := stack[len(stack)-1]
+				stack = stack[:len(stack)-1]
+				for _, sc := range x.Succs {
+					if !okReach[sc] && sc != b {
+						okReach[sc] = true
+						stack = append(stack, sc)
+					}
+				}
+			}
+			seen := map[*ssa.BasicBlock]bool{}
+			stack = []*ssa.BasicBlock{e}
+			for len(stack) > 0 {
+				x := stack[len(stack)-1]
+				stack = stack[:len(stack)-1]
+				if seen[x] || okReach[x] || x == b {
+					continue
+				}
+				seen[x] = true
+				if ab := c.abortsIn(x); ab != "" {
+					why = "when the flow decoder returns an error for a packet, " + ab + " is called (" + c.pos(bo) + "): one packet gopacket rejects - a short fragment, a reassembled datagram of a protocol without decoder, an empty raw IP frame - aborts the decode of the whole capture and no TCP connection is reconstructed"
+					continue
+				}
+				if _, isRet := x.Instrs[len(x.Instrs)-1].(*ssa.Return); isRet && cl == s.at && fn.Parent() != nil {
+					why = "when the flow decoder returns an error for a packet the record decoder returns early (" + c.pos(bo) + "): the rest of the record is not decoded and the following records are read from the wrong position"
+					continue
+				}
+				stack = append(stack, x.Succs...)
+			}
+		}
+	}
+	ru.Check(why == "", k, c.pos(s.at), "an error of the flow decoder for one packet neither aborts the decode nor ends the record", why)
+}
+
+// abortsIn: the block panics, calls a function that never returns, or calls an fq function whose
+// own body raises a panic (decode.D.Errorf/Fatalf/IOPanic: the decode error mechanism; Errorf only
+// returns under the force option). "" if none.
+func (c *c19) abortsIn(b *ssa.BasicBlock) string {
+	for _, ins := range b.Instrs {
+		switch x := ins.(type) {
+		case *ssa.Panic:
+			return "panic"
+		case *ssa.Call:
+			f := x.Common().StaticCallee()
+			if f == nil {
+				continue
+			}
+			if fw.CurrentNR != nil && fw.CurrentNR.Is(f) {
+				return c19calleeName(x.Common())
+			}
+			if fw.InFq(f) && f.Blocks != nil {
+				for _, fb := range f.Blocks {
+					for _, fi := range fb.Instrs {
+						if _, ok := fi.(*ssa.Panic); ok {
+							return c19calleeName(x.Common())
+						}
+					}
+				}
+			}
+		}
+	}
+	return ""
 }
